@@ -116,8 +116,8 @@ mut("c06-map-stack-n", ["C06"], "skip pushes n instead of 2n for a definite map 
     [(DEC, "                                stack.push(Some(n.saturating_mul(2)))", "                                stack.push(Some(n))")])
 mut("c06-irounds-dropped-on-switch", ["C06"], "skip forgets open indefinite containers when switching to the stack (map)",
     [(DEC, "                                for _ in 0 .. irounds {\n                                    stack.push(None)\n                                }\n                                stack.push(Some(nrounds - 1));\n                                stack.push(None);\n                                nrounds = 0;\n                                irounds = 0\n                            }\n                    }\n                TAGGED", "                                stack.push(Some(nrounds - 1));\n                                stack.push(None);\n                                nrounds = 0;\n                                irounds = 0\n                            }\n                    }\n                TAGGED")])
-mut("c06-break-pops-definite", ["C06"], "a break in stack mode pops whatever is on top",
-    [(DEC, "                        if let Some(None) = stack.last() {\n                            stack.pop();\n                        }", "                        stack.pop();")])
+mut("c06-finished-counts-not-unwound", ["C06"], "skip pops only one finished definite container per item in stack mode",
+    [(DEC, "                while let Some(Some(0)) = stack.last() {\n                     stack.pop();\n                }", "                if let Some(Some(0)) = stack.last() {\n                     stack.pop();\n                }")])
 
 # ---- C07 (built-in) ----
 mut("c07-u32-len-boundary", ["C07"], "u32::cbor_len reports 5 for 0xffff",
